@@ -1,2 +1,69 @@
-import Moclo.Model.Entity
-/-! placeholder for C18 (theorems follow) -/
+import Moclo.Proofs.Case
+/-!
+# C18 — letter case of the input sequences never changes the outcome
+
+Model: `clsMatch` ignores case (`(?i)`), `Bio.Restriction`'s site search upper-cases (`siteAt` looks at the
+code only), overhang keys are upper-cased (`Ent.gmod`).  `NtEq a b` = same nucleotide codes, any per-letter
+case assignment; `RecCase` / `EntCase` = records / entities differing only in spelling.
+-/
+namespace Moclo.C18
+open Moclo
+
+/-- a pattern letter matches a record letter whatever its case -/
+theorem letter_case (p : Nt) (x : Sym) (lo : Bool) : clsMatch p ⟨x.nt, lo⟩ = clsMatch p x := rfl
+
+/-- **typing**: for any two spellings of a plasmid the class reports the same verdict and the same match
+positions (so lower-, upper- and mixed-case spellings are accepted or rejected alike, `IllegalSite`
+included) -/
+theorem typing_case (c : ClassSpec) {w w' : Word} (h : NtEq w w') :
+    c.matchSeq w = c.matchSeq w' ∧ c.isValid w = c.isValid w' := by
+  refine ⟨matchSeq_congr_nt c h, ?_⟩
+  unfold ClassSpec.isValid; rw [matchSeq_congr_nt c h]
+
+/-- … and the same overhangs and target up to case -/
+theorem overhangs_case (c : ClassSpec) {w w' : Word} (h : NtEq w w') :
+    (c.overhangStart w).map upperW = (c.overhangStart w').map upperW ∧
+    (c.overhangEnd w).map upperW = (c.overhangEnd w').map upperW ∧
+    NtEq (fragmentOf c w) (fragmentOf c w') := by
+  unfold ClassSpec.overhangStart ClassSpec.overhangEnd
+  rw [matchSeq_congr_nt c h]
+  refine ⟨?_, ?_, fragmentOf_congr_nt c h⟩
+  · cases c.matchSeq w' with
+    | error e => rfl
+    | ok m =>
+      simp only [Except.map]
+      exact congrArg _ (upperW_eq_of_ntEq (by unfold Match.group; exact h.group _ _))
+  · cases c.matchSeq w' with
+    | error e => rfl
+    | ok m =>
+      simp only [Except.map]
+      exact congrArg _ (upperW_eq_of_ntEq (by unfold Match.group; exact h.group _ _))
+
+/-- upper-casing is one such respelling -/
+theorem upper_is_respelling (w : Word) : NtEq (upperW w) w := ntEq_upper w
+
+/-- **assembly**: any mix of spellings among a vector and its modules (all lower, all upper, per record,
+per letter) gives the same product up to case — same features, references, provenance, unused modules —
+or fails with the same error: same class and, for a missing module, the same stall overhang -/
+theorem assembly_case {v v' : Ent} {mods mods' : List Ent} (hv : EntCase v v')
+    (hm : List.Forall₂ EntCase mods mods') (pid pname : Nat) :
+    OutcomeCase (assemble v mods pid pname).1 (assemble v' mods' pid pname).1 :=
+  assemble_case hv hm pid pname
+
+/-- in particular the product sequences are equal after upper-casing -/
+theorem product_upper_eq {v v' : Ent} {mods mods' : List Ent} (hv : EntCase v v')
+    (hm : List.Forall₂ EntCase mods mods') (pid pname : Nat) {p p' : Product} {a a' : List Rec}
+    (h : assemble v mods pid pname = (.ok p, a)) (h' : assemble v' mods' pid pname = (.ok p', a')) :
+    upperW p.rcd.seq = upperW p'.rcd.seq := by
+  have := assemble_case hv hm pid pname
+  rw [h, h'] at this
+  exact upperW_eq_of_ntEq this.1.seq
+
+/-! non-vacuity: a lower-case module is accepted like its upper-case spelling -/
+example :
+    let g : Geom := ⟨[.G, .A], 1, 2⟩
+    let c : ClassSpec := { kind := .module, pat := moduleStructure g, geom := g }
+    let w : Word := [.G,.A,.C,.A,.C,.A,.A,.A,.C,.A,.C,.T,.C,.G,.G].map (fun n => ⟨n, true⟩)
+    c.isValid w = true ∧ c.isValid (upperW w) = true := by decide
+
+end Moclo.C18
